@@ -40,7 +40,8 @@ impl Shape {
     fn apply(&mut self, op: &OOp) {
         match op {
             OOp::Clone(_) if !self.unique && self.owners > 0 && self.owners < 4 => self.owners += 1,
-            OOp::CloneFromOther(_) if !self.unique && self.owners > 1 => self.owners -= 1,
+            OOp::CloneFromOther(_) if !self.unique && self.owners > 0 => self.owners -= 1,
+            OOp::HandlesUnderGuard(_, _, k) if !self.unique && self.owners > 1 && k % 3 == 1 => self.owners -= 1,
             OOp::DropOwner(_) => {
                 if self.unique {
                     self.uniq_alive = false;
@@ -153,9 +154,9 @@ fn alphabet(focus: Focus, sh: &Shape, max_subs: usize) -> Vec<OOp> {
                 }
                 if shared {
                     a.extend([OOp::Clone(0), OOp::Downgrade(0)]);
-                    if sh.owners > 1 {
-                        a.push(OOp::CloneFromOther(1));
-                    }
+                    a.push(OOp::CloneFromOther(1));
+                    a.push(OOp::HandlesUnderGuard(0, true, 1));
+                    a.push(OOp::HandlesUnderGuard(0, false, 2));
                     if sh.owners > 1 {
                         a.push(OOp::DropOwner(1));
                     }
@@ -268,13 +269,11 @@ pub fn gen_obs_history(rng: &mut Rng, shared: bool, min: usize, max: usize) -> O
                 5 => OOp::CloneWeak(h),
                 6 => OOp::DropWeak(h),
                 7 => OOp::IntoShared,
-                _ => {
-                    if rng.chance(1, 3) {
-                        OOp::CloneFromOther(h)
-                    } else {
-                        OOp::Clone(h)
-                    }
-                }
+                _ => match rng.below(6) {
+                    0 | 1 => OOp::CloneFromOther(h),
+                    2 | 3 => OOp::HandlesUnderGuard(h, rng.chance(2, 3), rng.below(3) as u8),
+                    _ => OOp::Clone(h),
+                },
             }
         };
         ops.push(op);
